@@ -16,6 +16,7 @@ StartOpts ==
     [Base EXCEPT !.rin = R_DISCARD, !.input = 1],         \* invalid options
     [Base EXCEPT !.rout = R_DISCARD, !.rerr = R_PIPE],
     [Base EXCEPT !.input = 1],
+    [Base EXCEPT !.dl = 1],                               \* calls entered before and after the deadline
     Base @@ [fork |-> TRUE] } \cup
   (IF Depth = "full" THEN { [Base EXCEPT !.rerr = R_STDOUT], [Base EXCEPT !.rin = R_PARENT, !.term = 2, !.stop = NoStop, !.dl = 1] } ELSE {})
 
@@ -43,6 +44,8 @@ Next ==
   \/ ChildClose(1, 1)
   \/ ChildRead(1, 1)
   \/ ChildCloseX(1)
+  \/ ChildExitG(1, 3) \/ GrandGone(1)
+  \/ Interrupt
 
 Spec == Init /\ [][Next]_vars
 Export == ExportRet
